@@ -246,7 +246,10 @@ func execute(s sink.Sink, seed int64, sc scen.Scenario, tg trigger, sample bool)
 		mu.Unlock()
 		id := r.Ch[0].ID()
 		if tg.CloseSub {
-			if r.SubCh[0] == nil {
+			// Closing a controller while its Watch is still starting crashes the library (startWatching
+			// returns a nil error for an already closed channel): close only once Watch demonstrably
+			// runs, i.e. a state of the sub-channel has been published through it.
+			if r.SubCh[0] == nil || len(A.Published(r.SubCh[0].ID())) == 0 {
 				hadVersion = false
 				return
 			}
